@@ -20,6 +20,75 @@ def proj(st):
     return d
 
 
+def dag_cover_paths(g, rng, max_paths=None, full=True, max_len=400, want_terminal=True):
+    """edge cover of an acyclic state graph by root-to-terminal paths, linear in the size of the
+    result (vlib.cover_paths searches breadth-first for the nearest uncovered edge from every path
+    start, which is quadratic on the tree-shaped graphs lazy program enumeration produces)"""
+    outs = {n: [(l, d) for (l, d) in es if d != n] for n, es in g.edges.items()}
+    total = sum(len(v) for v in outs.values())
+    covered = set()
+    clean = set()
+
+    def dirty(n):
+        # an uncovered edge is reachable from n (iterative DFS; `clean` only grows)
+        stack = [(n, 0)]
+        while stack:
+            m, i = stack.pop()
+            if m in clean:
+                continue
+            es = outs[m]
+            found = False
+            while i < len(es):
+                if (m, i) not in covered:
+                    return True
+                d = es[i][1]
+                if d not in clean:
+                    stack.append((m, i + 1))
+                    stack.append((d, 0))
+                    found = True
+                    break
+                i += 1
+            if not found:
+                clean.add(m)
+        return False
+
+    paths = []
+    inits = list(g.init)
+    while len(covered) < total:
+        if max_paths is not None and len(paths) >= max_paths:
+            break
+        cand = [r for r in inits if dirty(r)]
+        if not cand:
+            break
+        cur = rng.choice(cand)
+        init = cur
+        steps = []
+        while outs[cur] and len(steps) < max_len:
+            es = outs[cur]
+            unc = [i for i in range(len(es)) if (cur, i) not in covered]
+            if unc:
+                i = rng.choice(unc)
+            else:
+                dd = [i for i in range(len(es)) if dirty(es[i][1])]
+                i = rng.choice(dd) if dd else 0
+            covered.add((cur, i))
+            steps.append(es[i])
+            cur = es[i][1]
+        paths.append((init, steps))
+    return paths, len(covered), total
+
+
+def replay(*a, **kw):
+    """graph_replay with the linear path cover (framework.graph_replay looks cover_paths up in vlib at call time;
+    the shared function is put back afterwards)"""
+    saved = vlib.cover_paths
+    vlib.cover_paths = dag_cover_paths
+    try:
+        return graph_replay(*a, **kw)
+    finally:
+        vlib.cover_paths = saved
+
+
 COMMON = ["NextSync", "NextFuture", "BodyResume", "BodyStep", "FinalSuspend", "YieldSuspend", "UnblockSync",
           "SyncReturn", "UnblockFuture", "ExternalResolve", "Destroy"]
 ASYNC = ["NextAsync", "ResumeAwt"]
@@ -31,13 +100,13 @@ def run(ctx):
     # (cfg, tag, with argument, modes, must_take, deeper constants for the thorough tier, quick path cap)
     jobs = [
         ("Generator_noarg.cfg", "noarg", False, ["native", "coro"], COMMON + ASYNC,
-         {"MaxBody": 5, "MaxAcc": 5}, 4000),
+         {"MaxBody": 5, "MaxAcc": 5}, None),
         ("Generator_arg.cfg", "arg", True, ["native", "coro"], COMMON + ASYNC,
-         {"MaxBody": 5, "MaxAcc": 5}, 3000),
+         {"MaxBody": 5, "MaxAcc": 5}, None),
         ("Generator_thr.cfg", "thr", False, ["thr_late", "thr_early"], COMMON + ASYNC,
-         {"MaxAcc": 4, "MaxAfterEnd": 2}, 1200),
+         {"MaxAcc": 4, "MaxAfterEnd": 2}, None),
         ("Generator_thr.cfg", "thrarg", True, ["thr_late", "thr_early"], COMMON + ASYNC,
-         {"MaxAcc": 4}, 600),
+         {"MaxAcc": 4}, None),
     ]
     for (cfg, tag, witharg, modes, must, deep, cap) in jobs:
         consts = {}
@@ -49,9 +118,9 @@ def run(ctx):
 
         def hdr(k, st0, witharg=witharg, modes=modes):
             return {"witharg": witharg, "modes": modes}
-        graph_replay(ctx, "Generator", "Generator", cfg, tag, rp, proj, header_fn=hdr, merge_re=MERGE,
-                     must_take=must, constants=consts or None, max_paths=cap if q else None,
-                     extra_random=300 if q else 0, replay_timeout=3000)
+        replay(ctx, "Generator", "Generator", cfg, tag, rp, proj, header_fn=hdr, merge_re=MERGE,
+               must_take=must, constants=consts or None, max_paths=cap if q else None,
+               extra_random=0, replay_timeout=3000)
     ctx.assume("values are ints: the n-th co_yield yields n, the i-th access passes 100+i, the k-th awaited operation completes with k")
     ctx.assume("library preconditions respected by the history generator: no access while another one is outstanding, arguments "
                "are lvalues that outlive the access, ++ only on an iterator that is not at the end, it++ only on a dereferenceable "
